@@ -69,6 +69,14 @@ CHECKS = {
         note="State merging uses the full observable implementation state including buffer bytes and decompressor flags; zlib's internal inflate state is assumed determined by the input position. _BUFFER_SIZE is rebound as a module attribute.",
         design_ref="2/C13",
     ),
+    "C14": dict(
+        category="fault_enumeration",
+        engine="E4-enumerators",
+        technique="exhaustive enumeration of truncation points and suffixes of real dump files with deterministic termination monitors (no-progress detector on the refill loop via sys.monitoring, step budget, RLIMIT_AS)",
+        text="For each (object, compressor, level, protocol) file every truncation length (files <= 4 KiB) or every length in boundary windows (large files) and every suffix from a fixed menu is loaded by the real joblib.load; the same damage is applied to output.pkl of a real Memory entry followed by a cached call. Oracle: an ordinary exception or exactly the original object, never another object, never a hang / MemoryError; the cached call returns the correct value.",
+        note="Termination is decided by a loop-variant monitor on BinaryZlibFile._fill_buffer plus a step budget of 20x the undamaged load, RLIMIT_AS and a 20 s back-stop; the pure-Python/C pickle opcode loop is trusted to consume input. Damage is applied to the byte string joblib.load sees.",
+        design_ref="2/C14",
+    ),
 }
 
 NOT_BUILT_REASON = "check not built yet in this revision of /verif (planned in DESIGN.md section 2; model checking applies)"
